@@ -2,7 +2,7 @@
 from . import concdrive
 
 PID = "C05"
-PHASES = ["counter", "list", "setnx", "book", "misc", "expiry", "pairs", "bigval"]
+PHASES = ["counter", "list", "setnx", "book", "misc", "expiry", "pairs", "bigval", "keyscan"]
 
 
 def run(ctx):
